@@ -17,6 +17,16 @@ SQLV = K.Atom('SQLItem')
 GEN = K.Opt(K.Ref('SQLResult'))
 
 
+WF_ITEM = ("'op' in {it} and "
+           "implies({it}['op'] == 'ADD COLUMN', 'field' in {it} and 'initial' in {it}) and "
+           "implies({it}['op'] == 'MODIFY COLUMN', 'field' in {it} and 'initial' in {it}) and "
+           "implies({it}['op'] == 'DELETE COLUMN', 'column' in {it}) and "
+           "implies({it}['op'] == 'RENAME COLUMN', 'old_field' in {it} and 'new_field' in {it}) and "
+           "implies({it}['op'] == 'CHANGE COLUMN TYPE', 'old_field' in {it} and 'new_field' in {it}) and "
+           "implies({it}['op'] == 'ADD CONSTRAINTS', 'constraints' in {it}) and "
+           "implies({it}['op'] == 'ADD DB INDEX' or {it}['op'] == 'DROP DB INDEX', 'field' in {it})")
+
+
 def is_ph(it, s):
     """Does a select-list entry consume a bound parameter?  ('%s' or 'coalesce(<col>, %s)')"""
     return K.vbool(z3.Or(s.t == z3.StringVal('%s'), z3.PrefixOf(z3.StringVal('coalesce('), s.t)))
@@ -66,10 +76,7 @@ def build():
         'SQLiteAlterTableSQLResult.to_sql', module=SQLITE, serves=['C02', 'C01'],
         params={'self': K.Ref('SQLiteAlterTableSQLResult')}, returns=None,
         cut_before='columns_sql = []',
-        requires=["forall(range(len(self.alter_table)), lambda k: 'op' in sel(self.alter_table, k) and "
-                  "       'field' in sel(self.alter_table, k) and 'initial' in sel(self.alter_table, k) and "
-                  "       'column' in sel(self.alter_table, k) and 'old_field' in sel(self.alter_table, k) and "
-                  "       'new_field' in sel(self.alter_table, k) and 'constraints' in sel(self.alter_table, k))"],
+        requires=["forall(range(len(self.alter_table)), lambda k: %s)" % WF_ITEM.format(it='sel(self.alter_table, k)')],
         raises={'ValueError': True},
         modifies=['*heap'],
         locals={'added_fields': K.Seq(FIELD), 'deleted_columns': K.Set(K.Str), 'renamed_columns': K.Map(K.Str, K.Str),
@@ -128,11 +135,66 @@ def build():
              'dropped part lists iterkeys(field_values)/itervalues(field_values) of the same dict and binds '
              'tuple(field_initials) (syntactic obligation insert_select_shape)')
     add_column_schema(w)
+    add_item_producers(w)
     fam = Family('contracts.rebuild', w)
     fam.syntactic.append(Syntactic('insert_select_shape', ['C02'], syn_insert_shape,
                                    'the INSERT..SELECT of step 2 lists iterkeys(field_values) and itervalues(field_values) of the '
                                    'same dict, binds tuple(field_initials), and has no WHERE clause'))
     return fam
+
+
+def add_item_producers(w):
+    """The SQLite backend's column operations: each queues exactly one well-formed rebuild item that carries the
+    field and the mutation's declared initial value (the producer side of the to_sql copy-map contract)."""
+    R = K.Ref('SQLiteAlterTableSQLResult')
+    w.cls('MutationObj', {'initial': K.Opt(INITV)})
+    w.cls('DbState', {})
+    w.cls('EvolutionOperations', {'database_state': K.Ref('DbState'), '_can_rename_cols': K.Bool}, bases=['Backend'],
+          module=SQLITE)
+    w.classes['Field']['fields']['db_index'] = K.Bool
+    w.stub('SQLiteAlterTableSQLResult.__init__',
+           params={'self': R, 'evolver': K.Ref('Backend'), 'model': K.Ref('Model'), 'alter_table': K.Seq(ITEM)},
+           modifies=['SQLiteAlterTableSQLResult.evolver[self]', 'SQLiteAlterTableSQLResult.model[self]',
+                     'SQLiteAlterTableSQLResult.alter_table[self]', 'SQLiteAlterTableSQLResult.pre_sql[self]',
+                     'SQLiteAlterTableSQLResult.sql[self]', 'SQLiteAlterTableSQLResult.post_sql[self]'],
+           ensures=['self.evolver is evolver', 'self.model is model', 'same(self.alter_table, alter_table)'],
+           note='AlterTableSQLResult.__init__ stores its arguments (alter_table or [])')
+    w.stub('DbState.add_index', params={'self': K.Ref('DbState'), 'table_name': K.Str, 'index_name': K.Str,
+                                        'columns': K.Seq(K.Str), 'unique': K.Bool}, defaults={'unique': False},
+           may_raise=['Exception'], note='index bookkeeping (C01 bounded suite)')
+    w.stub('EvolutionOperations.get_new_constraint_name', params={'self': K.Ref('EvolutionOperations'), 'table_name': K.Str,
+                                                                  'column': K.Str}, returns=K.Str, pure=True, reads=())
+    w.stub('create_index_name', params={'connection': K.Ref('Conn'), 'table_name': K.Str, 'field_names': K.Seq(K.Str),
+                                        'col_names': K.Seq(K.Str)}, returns=K.Str, pure=True)
+    ONE = "len(result.alter_table) == 1 and %s" % WF_ITEM.format(it='sel(result.alter_table, 0)')
+    w.contract(
+        'EvolutionOperations.add_column', module=SQLITE, serves=['C02', 'C01'],
+        params={'self': K.Ref('EvolutionOperations'), 'model': K.Ref('Model'), 'field': FIELD, 'initial': K.Opt(INITV)},
+        returns=R, raises={'Exception': True}, modifies=['*heap'],
+        ensures=[ONE, "sel(result.alter_table, 0)['op'] == 'ADD COLUMN'",
+                 # the queued item names this field and carries exactly the declared initial value
+                 "sel(result.alter_table, 0)['field'] is field", "sel(result.alter_table, 0)['initial'] == initial",
+                 'result.model is model', 'fresh_ref(result)'])
+    w.contract(
+        'EvolutionOperations._change_attribute', module=SQLITE, inline=True,
+        params={'self': K.Ref('EvolutionOperations'), 'model': K.Ref('Model'), 'field': FIELD, 'attr_name': K.Str,
+                'new_attr_value': K.Bool, 'initial': K.Opt(INITV)}, defaults={'initial': None}, returns=R)
+    w.contract(
+        'EvolutionOperations.change_column_attr_null', module=SQLITE, serves=['C02'],
+        params={'self': K.Ref('EvolutionOperations'), 'model': K.Ref('Model'), 'mutation': K.Ref('MutationObj'),
+                'field': FIELD, 'old_value': K.Bool, 'new_value': K.Bool},
+        returns=R, modifies=['*heap'],
+        ensures=[ONE, "sel(result.alter_table, 0)['op'] == 'MODIFY COLUMN'",
+                 # a null -> non-null change rebuilds with the mutation's own initial value for this very field
+                 "sel(result.alter_table, 0)['field'] is field", "sel(result.alter_table, 0)['initial'] == mutation.initial",
+                 'field.null == new_value', 'result.model is model'],
+        note='_change_attribute is analysed inline (setattr with the constant attribute name "null")')
+    w.contract(
+        'EvolutionOperations.delete_column', module=SQLITE, serves=['C02', 'C01'],
+        params={'self': K.Ref('EvolutionOperations'), 'model': K.Ref('Model'), 'field': FIELD},
+        returns=R, modifies=['*heap'],
+        ensures=[ONE, "sel(result.alter_table, 0)['op'] == 'DELETE COLUMN'",
+                 "sel(result.alter_table, 0)['column'] == field.column", 'result.model is model'])
 
 
 KEYWORDS = ('NULL', 'NOT NULL', 'PRIMARY KEY', 'UNIQUE', 'REFERENCES', 'DEFAULT')
